@@ -1217,6 +1217,14 @@ func conv(t_dst, t_src types.Type, x value) value {
 	// widest representation (int64, uint64, float64, complex128,
 	// or string), then we convert it to the desired type.
 
+	// bool -> bool (a conversion between named and unnamed boolean types, e.g. through
+	// reflect.Value.Convert) changes nothing
+	if bd, ok := ut_dst.(*types.Basic); ok && bd.Info()&types.IsBoolean != 0 {
+		if bs, ok := ut_src.(*types.Basic); ok && bs.Info()&types.IsBoolean != 0 {
+			return x
+		}
+	}
+
 	if r, ok := symConv(ut_dst, ut_src, x); ok {
 		return r
 	}
